@@ -135,6 +135,10 @@ func TestC18(t *testing.T) {
 			switch rapid.IntRange(0, 4).Draw(rt, "kind") {
 			case 0, 1: // version
 				s := gen.Version(rt, e.Name, "v")
+				if gen.Chance(rt, "vnb", 1, 3) {
+					// a structural neighbour: tail pieces and keyword identifiers that the plain grammar does not draw
+					s = gen.Neighbor(rt, e, s, "vn")
+				}
 				long := false
 				if gen.Chance(rt, "long", 1, 10) {
 					// a long version whose length sits just below a typical limit, so that the padding crosses it
